@@ -116,7 +116,12 @@ impl ProcessState {
             let tx = if !must_create {
                 db = connect(&e, &dbfile)
                     .map_err(|e| RedoError::new(format!("could not connect: {}", e)))?;
-                let tx = db.transaction().map_err(RedoError::opaque_error)?;
+                // This transaction ends up writing (the new run id), so take the
+                // write lock up front: upgrading a read transaction fails with
+                // "database is locked" as soon as another process writes in between.
+                let tx = db
+                    .transaction_with_behavior(TransactionBehavior::Immediate)
+                    .map_err(RedoError::opaque_error)?;
                 let ver: Option<i32> = tx
                     .query_row("select version from Schema", [], |row| row.get(0))
                     .optional()
